@@ -33,6 +33,16 @@ def handle (j : Json) : Json :=
       JediModel.Gen.C12.loadModuleFinallyRestores st { ident := 1, items := strs j "sp" } o
     jobj [("result", resultJson r.2), ("restored", jbool (r.1.sysPath == st.sysPath)),
           ("during", jarr ((r.1.seenDuringCall.map (·.items)).getD [] |>.map jstr))]
+  | "hostimport" =>
+    match PathShape.ofString JediModel.Gen.C12.lazyImportPathShape with
+    | none => jobj [("error", jstr ("unknown path shape " ++ JediModel.Gen.C12.lazyImportPathShape))]
+    | some shape =>
+      let providers := strs j "providers"
+      let st := lazyHistory shape (fun d => providers.contains d) (strs j "hostPath") {}
+        ((arr j "history").map fun e => (asArr e).map asStr)
+      jobj [("executed", jarr (st.executed.map jstr)),
+            ("loadedFrom", match st.loadedFrom with | some d => jstr d | none => Json.null),
+            ("shape", jstr JediModel.Gen.C12.lazyImportPathShape)]
   | op => jobj [("error", jstr ("unknown op " ++ op))]
 
 def main : IO Unit := Proto.run handle
